@@ -192,7 +192,10 @@ def random_case(rnd):
     return {"transport": tr, "keep_alive": rnd.random() < 0.5, "timeout": tau, "retries": r, "count": count,
             "level": level, "callers": callers, "faults": faults, "toggles": toggles,
             "same_contents": rnd.random() < 0.1, "cancel_callers": cancel_callers,
-            "info_at": [rnd.choice(offs)] if level == "inverter" and rnd.random() < 0.3 else [],
+            # (not when the callers' registers share a 256-block with the registers read_device_info() itself reads:
+            # the oracle attributes transmissions to requests by register)
+            "info_at": [rnd.choice(offs)] if level == "inverter" and rnd.random() < 0.3
+            and (base >> 8) not in (0x88, 0xB9) else [],
             # the object has been used from another event loop before (a previous asyncio.run)
             "prior_loop": rnd.choice([False] * 11 + [True, "contended", "contended"])}
 
